@@ -154,6 +154,25 @@ def check(case, out):
         else:
             for lp, val, rv in zip(sparams, vals, srefs):
                 compare(val, rv, f"seq({case['seqtype']}, {order}) u={lp}")
+    # (b') a sequence of exactly one node is still a sequence: one point per node
+    k1 = len(lparams) // 2
+    for form in ("list", "tuple", "ndarray"):
+        one = [lparams[k1]] if form == "list" else (lparams[k1],)
+        if form == "ndarray":
+            one = np.array([lparams[k1]], dtype=object if exact else "float64")
+        try:
+            v1 = curve(one)
+        except ValueError as exc:
+            out.fail("raises-inside", klass, f"one-element {form} raised ValueError {exc}")
+            continue
+        try:
+            n1 = len(v1)
+        except TypeError:
+            n1 = -1
+        if n1 != 1 or (not ref.scalar and lib.is_scalar_point(v1[0])):
+            out.fail("shape", klass + ";one-element-sequence", f"curve({form} of one node {lparams[k1]}) returned {v1!r}: not one point per node")
+        else:
+            compare(v1[0], refvals[k1], f"one-element {form} u={lparams[k1]}")
     # (c) outside
     uo = case["outside"] if exact else lib.conv_param(case["outside"], num)
     if not exact and ref.U[0] <= oracle.frac(uo) <= ref.U[-1]:
